@@ -16,7 +16,7 @@ CONDS = {
     "and": ("('and', V('greater_than', t1), V('less_than', t2))", [("t1", "int"), ("t2", "int")]),
     "or": ("('or', V('equal_to', e1), V('greater_than', t1))", [("e1", U), ("t1", "int")]),
     "xor": ("('xor', V('truthy'), V('greater_than', t1))", [("t1", "int")]),
-    "nest": ("('and', ('or', V('is_instance', str), V('greater_than', t1)), ('xor', V('truthy'), V('equal_to', e1)))", [("t1", "int"), ("e1", U)]),
+    "nest": ("('and', ('or', V('is_instance', str), V('greater_than', t1)), ('xor', V('truthy'), V('equal_to', e1)))", [("t1", "int"), ("e1", "int")]),
     "andnull": ("('and', ('and', V('greater_than', t1), V('less_than', t2)), NULL)", [("t1", "int"), ("t2", "int")]),
     "factor": ("V('has_factor', t1)", [("t1", "int")]),
 }
